@@ -66,7 +66,24 @@ def err_info(e):
     return d
 
 
+def _unjoin(x):
+    """JSON transport would JOIN a high surrogate directly followed by a low surrogate into one astral
+    character, so a string the library mis-decoded into two lone surrogates (e.g. a "\\ud83d\\udd11"
+    JSON escape read as a Python literal) would look correct on the harness side.  Such adjacent pairs
+    never occur in a correct Python str: make them visible.  Unpaired surrogates (surrogateescape
+    bytes) are transported unchanged."""
+    if isinstance(x, str):
+        if any(0xD800 <= ord(a) <= 0xDBFF and 0xDC00 <= ord(b) <= 0xDFFF for a, b in zip(x, x[1:])):
+            return ''.join('<surrogate %04x>' % ord(c) if 0xD800 <= ord(c) <= 0xDFFF else c for c in x)
+        return x
+    if isinstance(x, list):
+        return [_unjoin(v) for v in x]
+    if isinstance(x, dict):
+        return {_unjoin(k): _unjoin(v) for k, v in x.items()}
+    return x
+
+
 def main(handler):
     payload = json.load(sys.stdin)
     res = handler(payload)
-    json.dump(res, sys.stdout)
+    json.dump(_unjoin(res), sys.stdout)
